@@ -147,10 +147,12 @@ def cols(v):
     return out
 
 
-def run_ren(probe, model, reqs, chunks=16, timeout=900):
+def run_ren(probe, model, reqs, chunks=16, timeout=900, heads=None):
     """reqs: list of 'ren <hex> <order> <td> <lim>'.  Returns (impl_obs, model_obs, model_reqs, err):
     the observable part of the probe's answers, the model's answers for the same requests extended
-    by the recorded matcher oracle, and an error text if a process failed."""
+    by the recorded matcher oracle, and an error text if a process failed.  If `heads` is a list it
+    receives, per request, the parsed non-observable part of the probe's answer (n, cut = depth cuts
+    of the regex engine during dir_context + dir_reorder, ctxf, trace)."""
     n = len(reqs)
     if n == 0:
         return [], [], [], None
@@ -163,26 +165,31 @@ def run_ren(probe, model, reqs, chunks=16, timeout=900):
         if rc != 0 or len(out) != len(part):
             # the probe answers in order: the request after the last answer is the one it died on
             culprit = [part[len(out)]] if len(out) < len(part) else part
-            return (None, None, None, 'probe_ren: rc=%d after %d of %d requests: %s' % (rc, len(out), len(part), err[-1500:]), culprit)
-        obs, mreq = [], []
+            return (None, None, None, 'probe_ren: rc=%d after %d of %d requests: %s' % (rc, len(out), len(part), err[-1500:]), culprit, None)
+        obs, mreq, hd = [], [], []
         for r, o in zip(part, out):
             head, sep, ob = o.partition(' |')
             h = parse_obs(head)
+            hd.append(h)
             obs.append(ob)
             mreq.append('%s %s %s' % (r, h.get('ctxf', '-2'), h.get('trace', '-')))
         mo = None
         if model:
             rc, mo, err = vlib.run_lines(model, mreq, timeout=timeout)
             if rc != 0 or len(mo) != len(part):
-                return (obs, None, mreq, 'model_ren: rc=%d, %d answers for %d requests: %s' % (rc, len(mo), len(part), err[-1500:]), part)
-        return (obs, mo, mreq, None, part)
+                return (obs, None, mreq, 'model_ren: rc=%d, %d answers for %d requests: %s' % (rc, len(mo), len(part), err[-1500:]), part, hd)
+        return (obs, mo, mreq, None, part, hd)
 
     res = vlib.pmap(one, parts)
     obs, mo, mreq, errs = [None] * n, [None] * n, [None] * n, []
-    for ix, (o, m, q, e, part) in zip(idx, res):
+    if heads is not None:
+        heads[:] = [None] * n
+    for ix, (o, m, q, e, part, hd) in zip(idx, res):
         if e:
             errs.append((e, part))
         for j, i in enumerate(ix):
+            if hd is not None and heads is not None:
+                heads[i] = hd[j]
             if o is not None:
                 obs[i] = o[j]
             if m is not None:
